@@ -106,6 +106,13 @@ def shared_bad(names):
     return dict.fromkeys(names, {})
 
 
+def shared2_bad(items):
+    more_then = more_else = []
+    for it in items:
+        more_then.append(it)
+    return more_then, more_else
+
+
 def shared_good(names):
     return {name: {} for name in names}, dict.fromkeys(names, 0), [None] * len(names)
 
@@ -187,6 +194,8 @@ def _shared(f):
                 and len(x.args) == 2 and _mutable_value(x.args[1]):
             out.append((x, f"{norm(x, 50)}: every key gets the same {type(x.args[1]).__name__.lower()} "
                            f"object"))
+        if isinstance(x, ast.Assign) and len(x.targets) >= 2 and _mutable_value(x.value):
+            out.append((x, f"{norm(x, 50)}: the names are bound to one and the same object"))
         if isinstance(x, ast.BinOp) and isinstance(x.op, ast.Mult):
             for side in (x.left, x.right):
                 if isinstance(side, (ast.List, ast.Tuple)) and side.elts \
@@ -212,6 +221,11 @@ def _mutate(f):
     from .c15 import _input_mutations
     return [(x, f"{norm(x, 50)} changes {what}, a field of a parameter, in place")
             for x, what in _input_mutations(f)]
+
+
+# parameter pairs whose exchange is meaningful (negating a condition swaps the arms,
+# mirroring a comparison swaps the sides): decided semantically elsewhere, not by name
+MIRROR_PAIRS = [{"then", "else_"}, {"left", "right"}, {"if_true", "if_false"}]
 
 
 def _argswap(f, P=None):
@@ -248,6 +262,8 @@ def _argswap(f, P=None):
                 other = x.args[j] if j < len(x.args) else None
                 oname = other.attr if isinstance(other, ast.Attribute) else (
                     other.id if isinstance(other, ast.Name) else None)
+                if {name, params[i]} in MIRROR_PAIRS:
+                    continue        # exchanging these is an operation in its own right
                 if oname == params[i] or oname is None:
                     out.append((x, f"{norm(x, 70)}: argument '{name}' is passed for parameter "
                                    f"'{params[i]}' (parameters: {params})"))
@@ -400,6 +416,9 @@ def lints(run, P, prop, extra_files=()):
         else:
             bad = fn(m2.functions[f"{name}_bad"])
             good = fn(m2.functions[f"{name}_good"])
+            for extra in (f"{name}2_bad", f"{name}3_bad"):
+                if extra in m2.functions and not fn(m2.functions[extra]):
+                    bad = []
         if not bad:
             missed.append(name)
         if good:
